@@ -231,7 +231,8 @@ def match_known(run, scenario, kind, chains, detail=""):
     def sig(f):
         s = f.get("signature", {})
         scs = s.get("scenarios") or ([s["scenario"]] if s.get("scenario") else ["*"])
-        if "*" not in scs and scenario not in scs:
+        # "<name>_l1" / "_l2" are the same scenario with long Uri-Path / Uri-Query options
+        if "*" not in scs and scenario not in scs and re.sub(r"_l\d$", "", scenario) not in scs:
             return False
         kinds = s.get("kinds") or ([s["kind"]] if s.get("kind") else None)
         if kinds and kind not in kinds:
